@@ -19,7 +19,7 @@ PROPS = ["C14", "C15", "C16", "C17", "C18", "C19", "C06"]
 
 TIERS = {
     "quick": dict(rnd_h=140, rnd_c=50, rnd_g=8, sim=60, jobs=10, chunk=40, long_ms=20000, everywhere=0),
-    "thorough": dict(rnd_h=2500, rnd_c=800, rnd_g=60, sim=400, jobs=12, chunk=150, long_ms=30000, everywhere=60),
+    "thorough": dict(rnd_h=6000, rnd_c=2000, rnd_g=150, sim=600, jobs=12, chunk=200, long_ms=30000, everywhere=100),
 }
 
 
